@@ -17,8 +17,8 @@ Import ListNotations.
 #[local] Existing Instance fexp64_valid.
 Local Open Scope Z_scope.
 
-Notation BR x := (B2R 53 1024 x).
-Notation fin x := (is_finite 53 1024 x = true).
+Local Notation BR x := (B2R 53 1024 x).
+Local Notation fin x := (is_finite 53 1024 x = true).
 
 (* ================================================================== *)
 (** * Part 1: the grid 2^-k                                            *)
@@ -409,8 +409,8 @@ End GenericFields.
 Definition su_stats_from (l : list (f64 * f64)) (s : summary) : summary :=
   fold_left (fun s vc => su_add s (fst vc) (snd vc)) l s.
 Definition su_stats (l : list (f64 * f64)) : summary := su_stats_from l su_new.
-Notation fminf := (gmin_step f64 flt).
-Notation fmaxf := (gmax_step f64 flt).
+Local Notation fminf := (gmin_step f64 flt).
+Local Notation fmaxf := (gmax_step f64 flt).
 
 Lemma su_stats_fields (l : list (f64 * f64)) (s : summary) :
   su_count (su_stats_from l s) = fold_left fadd (map snd l) (su_count s) /\
